@@ -318,9 +318,15 @@ def viewDyeTable : DyeTableF → Option ColorDyeTable
   | .dawntrail rows => some (.dawntrail (rows.map (·.row)))
   | .opaque => some .opaque
 
+/-- a heap byte is one character of the reported string (the library pushes `byte as char`, i.e.
+the byte's Latin-1 code point); the reported `String` is that character's UTF-8 encoding: the byte
+itself below 0x80, two bytes from 0x80 on -/
+def latin1Utf8 (b : UInt8) : Bytes :=
+  if b < 0x80 then [b] else [(0xC0 : UInt8) ||| (b >>> 6), (0x80 : UInt8) ||| (b &&& 0x3F)]
+
 def view (f : MaterialF) : Material :=
-  { shaderPackageName := cstr ((heap f).drop f.shaderPackageNameOffset.toNat)
-    texturePaths := f.textures
+  { shaderPackageName := (cstr ((heap f).drop f.shaderPackageNameOffset.toNat)).flatMap latin1Utf8
+    texturePaths := f.textures.map (·.flatMap latin1Utf8)
     shaderKeys := f.shaderKeys
     constants := f.constants.map (viewConstant f.shaderValues)
     samplers := f.samplers
@@ -371,7 +377,9 @@ def wfDyeTable : DyeTableF → Bool
   | .dawntrail rows => decide (rows.length = 32) && rows.all wfDawntrailDye
   | _ => true
 
-def wfPath (p : Bytes) : Bool := p.all (fun b => b != 0 && b < 0x80)
+/-- a path is any string of non-NUL bytes (not only ASCII: a heap byte ≥ 0x80 is reported as its
+Latin-1 character, see `latin1Utf8`) -/
+def wfPath (p : Bytes) : Bool := p.all (fun b => b != 0)
 
 def wfConstant (f : MaterialF) (c : ConstantF) : Bool :=
   decide (c.valueSize.toNat / 4 ≤ 4) &&
@@ -385,10 +393,9 @@ def WF (f : MaterialF) : Bool :=
   decide (f.colorSets.length < 256) && decide (4 + f.additionalRest.length < 256) &&
   decide (f.textureOffsets.length = f.textures.length) &&
   f.textures.all wfPath &&
-  -- the shader package name is a NUL-terminated ASCII string inside the heap
+  -- the shader package name is a NUL-terminated string inside the heap
   decide (f.shaderPackageNameOffset.toNat < (heap f).length) &&
   ((heap f).drop f.shaderPackageNameOffset.toNat).any (· == 0) &&
-  (cstr ((heap f).drop f.shaderPackageNameOffset.toNat)).all (· < 0x80) &&
   (f.colorTable.kind == colorKind f.tableFlags) && wfColorTable f.colorTable &&
   (f.dyeTable.kind == dyeKind f.tableFlags) && wfDyeTable f.dyeTable &&
   decide (f.shaderKeys.length < 65536) && decide (f.constants.length < 65536) &&
